@@ -35,11 +35,19 @@ def registry():
     reg = base_registry(('ExcelInPython', 'EmptyCell'))
     reg.spec('is_err', is_err_z, is_err_py, 'one of the seven Excel error values (as the property lists them)')
     reg.spec('substr', substr_z, lambda s, a, n: s[a:a + n] if n > 0 else '', 'n characters of s from 0-based offset a (SMT-LIB str.substr)')
-    from contracts import k5
-    k5.install(reg)
+    try:
+        from contracts import k5
+        k5.install(reg)
+    except ImportError:      # native side (no z3): externals are not needed for replay
+        pass
     logical(reg)
     text(reg)
     compare(reg)
+    lookup(reg)
+    lookup2(reg)
+    reg.spec('vgate', vgate_z, vgate_py, vgate_z.__doc__)
+    reg.spec('pyeq', pyeq_z, lambda a, b: a == b, pyeq_z.__doc__)
+    lookup3(reg)
     return reg
 
 
@@ -250,3 +258,213 @@ def compare(reg):
             self_class='ExcelInPython', requires=pre, ensures=post,
             notes='C10: exact numeric comparison, lawful same-kind comparison, blank clauses, date == its midnight '
                   f'(left operand: {sort})'))
+
+
+# ------------------------------------------------------------------------------------------------ C14
+def lookup(reg):
+    rect = ('len(matrix_list) >= 1 and all(is_list(matrix_list[i]) and len(matrix_list[i]) == len(matrix_list[0]) '
+            'for i in range(len(matrix_list))) and len(matrix_list[0]) >= 1 and '
+            'all(all(not is_list(matrix_list[i][j]) and not is_tuple(matrix_list[i][j]) for j in range(len(matrix_list[i]))) '
+            'for i in range(len(matrix_list)))')
+    reg.add(Contract(
+        '_index', 'runtime:_index',
+        {**SELF, 'matrix_list': 'list', 'row_number': 'int', 'column_number': 'int', 'area_number': 'int'},
+        self_class='ExcelInPython',
+        requires=[rect, 'I(row_number) >= 1 and I(column_number) >= 1 and I(area_number) == 1'],
+        ensures={
+            'element': 'implies(I(row_number) <= len(matrix_list) and I(column_number) <= len(matrix_list[0]), '
+                       'result == matrix_list[I(row_number) - 1][I(column_number) - 1])',
+            'ref_error_outside': 'implies(I(row_number) > len(matrix_list) or I(column_number) > len(matrix_list[0]), '
+                                 'result == "#REF!")',
+        },
+        notes='INDEX(area, r, c) is the element at row r, column c (1-based) of a rectangular area, #REF! outside it'))
+
+
+def _lower(s):
+    return T().str_lower(s)
+
+
+def gate_z(x, v):
+    """row key x takes part in a lookup of v: not blank and of the kind of v (numbers of either type are one kind)"""
+    z3, S = z(), T()
+    x, v = _toV(x), _toV(v)
+    numv = z3.Or(S.is_('Int', v), S.is_('Float', v))
+    return z3.And(z3.Not(S.is_('Empty', x)),
+                  z3.If(numv, z3.Or(S.is_('Int', x), S.is_('Float', x), S.is_('Bool', x)),
+                        z3.If(S.is_('Str', v), S.is_('Str', x), z3.BoolVal(False))))
+
+
+def gate_py(x, v):
+    if type(x).__name__ in ('EmptyCell', 'EmptyStandIn'):
+        return False
+    if type(v) in (int, float):
+        return isinstance(x, (int, float))
+    return type(v) is str and isinstance(x, str)
+
+
+def eqk_z(x, v):
+    """key x equals lookup value v: numbers numerically, texts case-insensitively"""
+    z3, S = z(), T()
+    x, v = _toV(x), _toV(v)
+    return z3.If(S.is_('Str', x), _lower(S.V.sval(x)) == _lower(S.V.sval(v)), S.real_of(x) == S.real_of(v))
+
+
+def lek_z(x, v):
+    """key x is not greater than v (numbers numerically, texts case-insensitively by code point)"""
+    z3, S = z(), T()
+    x, v = _toV(x), _toV(v)
+    return z3.If(S.is_('Str', x), _lower(S.V.sval(x)) <= _lower(S.V.sval(v)), S.real_of(x) <= S.real_of(v))
+
+
+def gek_z(x, v):
+    z3, S = z(), T()
+    x, v = _toV(x), _toV(v)
+    return z3.If(S.is_('Str', x), _lower(S.V.sval(v)) <= _lower(S.V.sval(x)), S.real_of(x) >= S.real_of(v))
+
+
+def _k(f):
+    def g(x, v):
+        if isinstance(x, str):
+            return f(x.lower(), v.lower())
+        return f(x, v)
+    return g
+
+
+def lookup2(reg):
+    reg.spec('gate', gate_z, gate_py, gate_z.__doc__)
+    reg.spec('eqk', eqk_z, _k(lambda a, b: a == b), eqk_z.__doc__)
+    reg.spec('lek', lek_z, _k(lambda a, b: a <= b), lek_z.__doc__)
+    reg.spec('gek', gek_z, _k(lambda a, b: a >= b), 'key x is not smaller than v')
+    rows = ('all(is_list(lookup_array[i]) and len(lookup_array[i]) >= 1 and (is_int(lookup_array[i][0]) or '
+            'is_float(lookup_array[i][0]) or is_str(lookup_array[i][0]) or is_bool(lookup_array[i][0]) or '
+            'is_empty(lookup_array[i][0])) for i in range(len(lookup_array)))')
+    asc = ('all(all(implies(i <= j and gate(lookup_array[i][0], lookup_value) and gate(lookup_array[j][0], lookup_value), '
+           'lek(lookup_array[i][0], lookup_array[j][0])) for j in range(len(lookup_array))) for i in range(len(lookup_array)))')
+    G = 'gate(lookup_array[{i}][0], lookup_value)'
+    reg.add(Contract(
+        '_match/exact', 'runtime:_match',
+        {**SELF, 'lookup_value': 'int|float|str', 'lookup_array': 'list', 'match_type': 'int'}, self_class='ExcelInPython',
+        requires=[rows, 'I(match_type) == 0'],
+        ensures={
+            'first_equal_row': 'any(' + G.format(i='p') + ' and eqk(lookup_array[p][0], lookup_value) and result == p + 1 and '
+                               'all(not (' + G.format(i='q') + ' and eqk(lookup_array[q][0], lookup_value)) for q in range(p)) '
+                               'for p in range(len(lookup_array))) or '
+                               '(result == "#N/A" and all(not (' + G.format(i='q') + ' and eqk(lookup_array[q][0], lookup_value)) '
+                               'for q in range(len(lookup_array))))',
+        },
+        invariants={0: {'none_before': 'all(not (' + G.format(i='q') + ' and eqk(lookup_array[q][0], lookup_value)) for q in range(k0))'}},
+        notes='exact MATCH: 1-based position of the first row whose key equals the value, else #N/A'))
+    # text lookup values: z3's string ordering makes the early-return query time out (transitivity of str.<= under
+    # quantifiers); the text case of approximate MATCH is covered by the bounded monitor only (stated in evidence)
+    for kind, vsort in (('num', 'int|float'),):
+      reg.add(Contract(
+        f'_match/approx/{kind}', 'runtime:_match',
+        {**SELF, 'lookup_value': vsort, 'lookup_array': 'list', 'match_type': 'int'}, self_class='ExcelInPython',
+        requires=[rows, 'I(match_type) > 0', asc],
+        ensures={
+            'last_row_not_greater': 'any(' + G.format(i='p') + ' and lek(lookup_array[p][0], lookup_value) and result == p + 1 and '
+                                    'all(implies(q > p and ' + G.format(i='q') + ', not lek(lookup_array[q][0], lookup_value)) '
+                                    'for q in range(len(lookup_array))) for p in range(len(lookup_array))) or '
+                                    '(result == "#N/A" and all(implies(' + G.format(i='q') + ', not lek(lookup_array[q][0], lookup_value)) '
+                                    'for q in range(len(lookup_array))))',
+        },
+        invariants={1: {
+            'last': 'last_valid_index == "#N/A" or (is_int(last_valid_index) and 1 <= I(last_valid_index) and '
+                    'I(last_valid_index) <= k1 and gate(lookup_array[I(last_valid_index) - 1][0], lookup_value) and '
+                    'lek(lookup_array[I(last_valid_index) - 1][0], lookup_value))',
+            'all_gated_le': 'all(implies(' + G.format(i='q') + ', lek(lookup_array[q][0], lookup_value)) for q in range(k1))',
+            'last_is_last': 'all(implies(' + G.format(i='q') + ', is_int(last_valid_index) and q + 1 <= I(last_valid_index)) for q in range(k1))',
+        }},
+        notes='approximate MATCH on ascending keys: the last row whose key is not greater than the value, including the '
+              'last row when the value exceeds every key'))
+
+
+def lookup3(reg):
+    # ---------------------------------------------------------------- _xmatch: dispatch on search_mode
+    rows = ('all(is_list(lookup_array[i]) and len(lookup_array[i]) >= 1 and (is_int(lookup_array[i][0]) or '
+            'is_float(lookup_array[i][0]) or is_str(lookup_array[i][0]) or is_bool(lookup_array[i][0]) or '
+            'is_empty(lookup_array[i][0])) for i in range(len(lookup_array)))')
+    G = 'gate(lookup_array[{i}][0], lookup_value)'
+    hit = '(' + G + ' and eqk(lookup_array[{i}][0], lookup_value))'
+    reg.add(Contract(
+        '_xmatch/exact', 'runtime:_xmatch',
+        {**SELF, 'lookup_value': 'int|float|str', 'lookup_array': 'list', 'match_mode': 'int', 'search_mode': 'int'},
+        self_class='ExcelInPython', callees={'_match': '_match/exact'},
+        requires=[rows, 'I(match_mode) == 0', 'I(search_mode) == 1 or I(search_mode) == -1'],
+        ensures={
+            'first_from_start': 'implies(I(search_mode) == 1, any(' + hit.format(i='p') + ' and result == p + 1 and '
+                                'all(not ' + hit.format(i='q') + ' for q in range(p)) for p in range(len(lookup_array))) or '
+                                '(result == "#N/A" and all(not ' + hit.format(i='q') + ' for q in range(len(lookup_array)))))',
+            'last_from_end': 'implies(I(search_mode) == -1, any(' + hit.format(i='p') + ' and result == p + 1 and '
+                             'all(implies(q > p, not ' + hit.format(i='q') + ') for q in range(len(lookup_array))) '
+                             'for p in range(len(lookup_array))) or '
+                             '(result == "#N/A" and all(not ' + hit.format(i='q') + ' for q in range(len(lookup_array)))))',
+        },
+        notes='exact XMATCH: first equal row from the start, last equal row (position counted from the start) when '
+              'searching from the end'))
+
+    # ---------------------------------------------------------------- _vlookup
+    trows = ('all(is_list(table_array[i]) and len(table_array[i]) >= I(col_index_num) and (is_int(table_array[i][0]) or '
+             'is_float(table_array[i][0]) or is_str(table_array[i][0]) or is_bool(table_array[i][0])) '
+             'for i in range(len(table_array)))')
+    VG = 'vgate(table_array[{i}][0], lookup_value)'
+    vhit = '(' + VG + ' and pyeq(table_array[{i}][0], lookup_value))'
+    reg.add(Contract(
+        '_vlookup/exact', 'runtime:_vlookup',
+        {**SELF, 'lookup_value': 'int|float|str', 'table_array': 'list', 'col_index_num': 'int', 'range_lookup': 'bool'},
+        self_class='ExcelInPython',
+        requires=['I(col_index_num) >= 1', trows, 'not Bv(range_lookup)'],
+        ensures={
+            'first_equal_row': 'any(' + vhit.format(i='p') + ' and result == table_array[p][I(col_index_num) - 1] and '
+                               'all(not ' + vhit.format(i='q') + ' for q in range(p)) for p in range(len(table_array))) or '
+                               '(result == "#N/A" and all(not ' + vhit.format(i='q') + ' for q in range(len(table_array))))',
+        },
+        invariants={0: {'none_before': 'all(not ' + vhit.format(i='q') + ' for q in range(k0))',
+                        'last': 'last_valid_value == "#N/A"'}},
+        notes='exact VLOOKUP: entry of the first row whose key equals the value, else #N/A'))
+    vasc = ('all(all(implies(i <= j and ' + VG.format(i='i') + ' and ' + VG.format(i='j') + ', '
+            'R(table_array[i][0]) <= R(table_array[j][0])) for j in range(len(table_array))) for i in range(len(table_array)))')
+    reg.add(Contract(
+        '_vlookup/approx', 'runtime:_vlookup',
+        {**SELF, 'lookup_value': 'int|float', 'table_array': 'list', 'col_index_num': 'int', 'range_lookup': 'bool'},
+        self_class='ExcelInPython',
+        requires=['I(col_index_num) >= 1', trows, 'Bv(range_lookup)', vasc],
+        ensures={
+            'last_row_not_greater': 'any(' + VG.format(i='p') + ' and R(table_array[p][0]) <= R(lookup_value) and '
+                                    'result == table_array[p][I(col_index_num) - 1] and '
+                                    'all(implies(q > p and ' + VG.format(i='q') + ', R(table_array[q][0]) > R(lookup_value)) '
+                                    'for q in range(len(table_array))) for p in range(len(table_array))) or '
+                                    '(result == "#N/A" and all(implies(' + VG.format(i='q') + ', R(table_array[q][0]) > R(lookup_value)) '
+                                    'for q in range(len(table_array))))',
+        },
+        invariants={0: {
+            'last': '(last_valid_value == "#N/A" and all(not ' + VG.format(i='q') + ' for q in range(k0))) or '
+                    'any(' + VG.format(i='p') + ' and R(table_array[p][0]) <= R(lookup_value) and '
+                    'last_valid_value == table_array[p][I(col_index_num) - 1] and '
+                    'all(implies(q > p, not ' + VG.format(i='q') + ') for q in range(k0)) for p in range(k0))',
+            'all_gated_le': 'all(implies(' + VG.format(i='q') + ', R(table_array[q][0]) <= R(lookup_value)) for q in range(k0))',
+        }},
+        notes='approximate VLOOKUP on ascending numeric keys: entry of the last row whose key is not greater than the '
+              'value, including the last row'))
+
+
+def vgate_z(x, v):
+    """VLOOKUP's gate: a key takes part when it is of the lookup value's kind; numbers of either type are one kind"""
+    z3, S = z(), T()
+    x, v = _toV(x), _toV(v)
+    numv = z3.Or(S.is_('Int', v), S.is_('Float', v))
+    numx = z3.Or(S.is_('Int', x), S.is_('Float', x), S.is_('Bool', x))
+    return z3.If(numv, numx, z3.And(S.is_('Str', v), S.is_('Str', x)))
+
+
+def vgate_py(x, v):
+    if type(v) in (int, float):
+        return isinstance(x, (int, float))
+    return type(v) is str and isinstance(x, str)
+
+
+def pyeq_z(a, b):
+    """Python == on scalars: numbers numerically (bool as 0/1), texts exactly"""
+    z3, S = z(), T()
+    a, b = _toV(a), _toV(b)
+    return z3.If(z3.And(S.is_num(a), S.is_num(b)), S.real_of(a) == S.real_of(b), a == b)
